@@ -7,6 +7,7 @@ EXTENDS MGCycle, Json, IOUtils, TLCExt, SequencesExt
 
 ASSUME TLCSet(1, {})
 ASSUME TLCSet(2, <<0, "none">>)
+ASSUME TLCSet(3, {})
 
 Traces == JsonDeserialize(IOEnv.TRACE_FILE)
 Diag == "TRACE_DIAG" \in DOMAIN IOEnv
@@ -80,7 +81,22 @@ TraceSpec == TraceInit /\ [][TraceNext]_tvars
 
 Complete == l = Len(T.ev) + 1 /\ status # "run"
 
+(* all MGCycle invariants, evaluated in every state of every recorded       *)
+(* execution; failures are collected per trace                              *)
+InvTable == <<
+  <<"TypeOK", TypeOK>>, <<"AtLeastTwo", AtLeastTwo>>,
+  <<"StackShape", StackShape>>, <<"HalveOnlyEvenGT2", HalveOnlyEvenGT2>>,
+  <<"Progress", Progress>>, <<"NoLRAlongTwoCells", NoLRAlongTwoCells>>,
+  <<"DepthBound", DepthBound>>, <<"BottomExact", BottomExact>>,
+  <<"NotBottomCanCoarsen", NotBottomCanCoarsen>>,
+  <<"HeaderShape", HeaderShape>>, <<"CycmaxRule", CycmaxRule>>,
+  <<"DocOrder", DocOrder>>, <<"DocDepth", DocDepth>>,
+  <<"QCIsFirstCycle", QCIsFirstCycle>> >>
+Failed == {InvTable[i][1] : i \in {j \in 1..Len(InvTable) : ~InvTable[j][2]}}
+
 Accept ==
+  /\ IF Failed # {}
+     THEN TLCSet(3, TLCGet(3) \cup {<<tid, f>> : f \in Failed}) ELSE TRUE
   /\ IF Complete THEN TLCSet(1, TLCGet(1) \cup {tid}) ELSE TRUE
   /\ IF Diag /\ l > TLCGet(2)[1]
      THEN TLCSet(2, <<l, [stack |-> stack, scPos |-> scPos, lrPos |-> lrPos,
@@ -90,6 +106,7 @@ Accept ==
 Post ==
   /\ PrintT(<<"VP", "ntraces", Len(Traces)>>)
   /\ PrintT(<<"VP", "rejected", (1..Len(Traces)) \ TLCGet(1)>>)
+  /\ PrintT(<<"VP", "invfail", TLCGet(3)>>)
   /\ IF Diag THEN PrintT(<<"VP", "maxl", TLCGet(2)[1]>>)
                   /\ PrintT(<<"VP", "laststate", TLCGet(2)[2]>>)
      ELSE TRUE
